@@ -82,7 +82,7 @@ def _dec2base(value, places=None, base=16):
 
     try:
         value = int(value)
-    except ValueError:  # pragma: no cover
+    except (ValueError, OverflowError):  # pragma: no cover
         return VALUE_ERROR
 
     mask = _SIZE_MASK[base]
@@ -96,6 +96,13 @@ def _dec2base(value, places=None, base=16):
     if places is None:
         places = 0
     else:
+        if places in ERROR_CODES:
+            return places
+        if isinstance(places, str):
+            places = coerce_to_number(places)
+            if isinstance(places, str):
+                # not a number of places
+                return VALUE_ERROR
         places = int(places)
         if places < len(value):
             return NUM_ERROR
